@@ -3,10 +3,13 @@ package codec
 import (
 	"bytes"
 	"fmt"
+	"github.com/bluenviron/gomavlib/v3"
 	"io"
 	"reflect"
 	"sort"
 	"testing"
+	"time"
+	"verifharness/fake"
 
 	"github.com/bluenviron/gomavlib/v3/pkg/dialect"
 	"github.com/bluenviron/gomavlib/v3/pkg/dialects/common"
@@ -521,6 +524,7 @@ func TestC02(t *testing.T) {
 		}
 	}
 	c02twins(rep, vh.Sub(seed, "c02-twins"))
+	c02reinit(rep, vh.Sub(seed, "c02-reinit"))
 	rep.Floor("damaged_streams", 1000)
 	rep.Floor("valid_frames", 50)
 	rep.Floor("long_chunked_streams", 20)
@@ -613,6 +617,109 @@ func c02twins(rep *vh.Report, r *vh.RNG) {
 						return
 					}
 				}
+			}
+		}
+	}
+}
+
+// c02reinit: a node that is closed, whose dialect value is then extended / changed in place, and that is initialised
+// again: the checksum gate of the second life works with the dialect as it is now (new ids are gated and decoded, a
+// re-defined id is gated with its new CRC_EXTRA).
+func c02reinit(rep *vh.Report, r *vh.RNG) {
+	mk := func(m message.Message) *msgInfo {
+		mi := &msgInfo{Name: reflect.TypeOf(m).Elem().Name(), Msg: m, Type: reflect.TypeOf(m).Elem()}
+		l, err := ref.LayoutOf(mi.Type)
+		if err != nil {
+			rep.HarnessError(err.Error())
+			return nil
+		}
+		mi.Layout = l
+		return mi
+	}
+	hb, rds := mk(&common.MessageHeartbeat{}), mk(&common.MessageRequestDataStream{})
+	twin0 := mk(&MessageTwinZero{})
+	if hb == nil || rds == nil || twin0 == nil {
+		return
+	}
+	d := &dialect.Dialect{Version: 3, Messages: []message.Message{hb.Msg}}
+	tr := fake.NewTransport("reinit")
+	node := &gomavlib.Node{Endpoints: []gomavlib.EndpointConf{gomavlib.EndpointCustom{ReadWriteCloser: tr}}, Dialect: d, OutVersion: gomavlib.V2, OutSystemID: 1, HeartbeatDisable: true}
+	type step struct {
+		what   string
+		change func()
+		probes []*msgInfo // messages whose frames must now be gated with these definitions
+	}
+	steps := []step{
+		{"first life", func() {}, []*msgInfo{hb}},
+		{"message 66 appended to the same dialect value", func() { d.Messages = append(d.Messages, rds.Msg) }, []*msgInfo{hb, rds}},
+		{"message 0 replaced in place by another definition of id 0", func() { d.Messages[0] = twin0.Msg }, []*msgInfo{twin0, rds}},
+	}
+	for si, st := range steps {
+		st.change()
+		tr = fake.NewTransport(fmt.Sprintf("reinit%d", si))
+		node.Endpoints = []gomavlib.EndpointConf{gomavlib.EndpointCustom{ReadWriteCloser: tr}}
+		if err := node.Initialize(); err != nil {
+			rep.Violation("kind=undelivered msg=reinit", "a node could not be initialised again after Close ("+st.what+"): "+err.Error(), nil)
+			return
+		}
+		type got struct {
+			frames []message.Message
+			perr   int
+		}
+		res := make(chan got, 1)
+		nProbe := len(st.probes) * 2 * 6
+		go func() {
+			var g got
+			for e := range node.Events() {
+				switch ev := e.(type) {
+				case *gomavlib.EventFrame:
+					g.frames = append(g.frames, ev.Message())
+				case *gomavlib.EventParseError:
+					g.perr++
+				}
+				if len(g.frames)+g.perr >= nProbe {
+					break
+				}
+			}
+			res <- g
+			for range node.Events() {
+			}
+		}()
+		var wantTypes []reflect.Type
+		for _, mi := range st.probes {
+			for k := 0; k < 6; k++ {
+				s, _ := validFrame(r, mi, 1+k%2, 0, false, nil)
+				tr.Feed(ref.Serialize(s)) // valid under the current definition: delivered decoded
+				wantTypes = append(wantTypes, reflect.PtrTo(mi.Type))
+				bad := *s
+				bad.Checksum ^= 0x0101
+				tr.Feed(ref.Serialize(&bad)) // wrong checksum: never delivered
+			}
+		}
+		var g got
+		select {
+		case g = <-res:
+		case <-time.After(3 * time.Second):
+			rep.Violation("kind=undelivered msg=reinit", fmt.Sprintf("a node initialised again after Close (%s) did not process the %d frames it was fed within 3 s", st.what, nProbe), nil)
+			node.Close()
+			return
+		}
+		node.Close()
+		rep.Eval(nProbe)
+		rep.Count("reinitialised_node_probes", nProbe)
+		wit := map[string]interface{}{"step": st.what, "frame_events": len(g.frames), "parse_errors": g.perr, "valid_fed": len(wantTypes), "damaged_fed": len(wantTypes)}
+		if len(g.frames) != len(wantTypes) {
+			kind := "kind=undelivered msg=reinit"
+			if len(g.frames) > len(wantTypes) {
+				kind = "kind=delivered msg=reinit"
+			}
+			rep.Violation(kind, fmt.Sprintf("after the node was initialised again (%s): %d frame events for %d valid frames (and %d with a wrong checksum)", st.what, len(g.frames), len(wantTypes), len(wantTypes)), wit)
+			continue
+		}
+		for i, m := range g.frames {
+			if reflect.TypeOf(m) != wantTypes[i] {
+				rep.Violation("kind=undelivered msg=reinit", fmt.Sprintf("after the node was initialised again (%s) a valid frame was delivered as %T instead of %v: the gate works with an outdated dialect", st.what, m, wantTypes[i]), wit)
+				break
 			}
 		}
 	}
